@@ -182,6 +182,24 @@ func (m *Module) validateTable(enabledFeatures api.CoreFeatures, tables []Table,
 				if index >= globalsCount {
 					return fmt.Errorf("%s[%d].init[%d] global index %d out of range", SectionIDName(SectionIDElement), idx, ei, index)
 				}
+				// The value of the global is stored into the table as a reference: as in any other constant
+				// expression, only an imported, immutable global can be read, and it must be of the element's type.
+				if index >= m.ImportGlobalCount {
+					return fmt.Errorf("%s[%d].init[%d] global index %d is not an imported global", SectionIDName(SectionIDElement), idx, ei, index)
+				}
+				var gt *GlobalType
+				for ii, gi := 0, Index(0); ii < len(m.ImportSection); ii++ {
+					if imp := &m.ImportSection[ii]; imp.Type == ExternTypeGlobal {
+						if gi == index {
+							gt = &imp.DescGlobal
+							break
+						}
+						gi++
+					}
+				}
+				if gt != nil && (gt.Mutable || gt.ValType != elem.Type) {
+					return fmt.Errorf("%s[%d].init[%d] global %d must be an immutable %s", SectionIDName(SectionIDElement), idx, ei, index, RefTypeName(elem.Type))
+				}
 			} else {
 				if elem.Type == RefTypeExternref {
 					return fmt.Errorf("%s[%d].init[%d] must be ref.null but was %d", SectionIDName(SectionIDElement), idx, ei, init)
